@@ -318,13 +318,56 @@ func (e *linEnv) pretty(l Lin) string {
 }
 
 // srcName: a source-level name for an SSA value.
+// canonical names: the scan index of a function's scanning loop is rendered "i" whatever it is called in the
+// source, so that rules and report keys do not depend on the name of a local variable.
+var idxPhiCache = map[*ssa.Function]*ssa.Phi{}
+
+func scanIndexPhi(fn *ssa.Function) *ssa.Phi {
+	if fn == nil {
+		return nil
+	}
+	if p, ok := idxPhiCache[fn]; ok {
+		return p
+	}
+	idxPhiCache[fn] = nil
+	head, _, _ := mainLoop3(fn)
+	if head == nil {
+		return nil
+	}
+	iff, ok := head.Instrs[len(head.Instrs)-1].(*ssa.If)
+	if !ok {
+		return nil
+	}
+	if bo, ok := iff.Cond.(*ssa.BinOp); ok {
+		for _, v := range []ssa.Value{bo.X, bo.Y} {
+			if ph, ok := v.(*ssa.Phi); ok && ph.Block() == head {
+				idxPhiCache[fn] = ph
+				return ph
+			}
+		}
+	}
+	return nil
+}
+
+func phiName(a *ssa.Phi) string {
+	if idx := scanIndexPhi(a.Parent()); idx != nil {
+		if a == idx || (a.Comment != "" && a.Comment == idx.Comment) {
+			return "i" // the index variable (any of its SSA versions)
+		}
+		if a.Comment == "i" {
+			return "i_" // another variable that happens to be called i
+		}
+	}
+	return a.Comment
+}
+
 func srcName(v ssa.Value) string {
 	switch a := v.(type) {
 	case *ssa.Parameter:
 		return a.Name()
 	case *ssa.Phi:
 		if a.Comment != "" {
-			return a.Comment
+			return phiName(a)
 		}
 	case *ssa.Extract:
 		if call, ok := a.Tuple.(*ssa.Call); ok {
